@@ -230,7 +230,8 @@ CLAIMS = {
                 "staged writes (found as file-output effects below the evaluated run command) use fits/overwrite=True and the "
                 "reader opens HDU 1; the table compute() returns on every path, and every table written, was created by "
                 "results_table.init from the very configuration object the run command loaded, overrode and passed to "
-                "compute(). It does NOT decide bit-for-bit "
+                "compute(); below compute() every change to that table is followed by a write of it on the same path "
+                "(the staged file ends up holding the returned table). It does NOT decide bit-for-bit "
                 "column round trip or header value fidelity (astropy FITS I/O).",
         "technique": "writer key set derived from the pydantic class definitions, reader leaves and guards from the "
                      "value-flow graph of config_from_fits, set comparison per union variant",
@@ -248,7 +249,7 @@ CLAIMS = {
                 "DATA AUDIT over all ~550 000 nodes of all shipped tables (strictly increasing axes, CDF rows "
                 "non-decreasing from 0 to 1 within 1e-15, exit probabilities <= 1, smallest reachable tau energy above "
                 "the tau mass, axis names/order); a sub-grid taken with selectors cuts data, axes and names with the same "
-                "selection and keeps an axis exactly under the test that counts the selector as given. It does NOT decide round-trip equality for arbitrary grids, slicing "
+                "selection and keeps an axis exactly under the test that counts the selector as given; the registered identifiers are the library's content-based ones or answer 'yes' / from the open file on every path. It does NOT decide round-trip equality for arbitrary grids, slicing "
                 "values or numerical agreement of vec_1d_interp with np.interp.",
         "technique": "value-flow graphs of the sibling reader / writer functions (sequence normal form, affine index "
                      "positions, key agreement) + identity of stored arrays; data audit of shipped files (labelled, "
@@ -282,7 +283,7 @@ CLAIMS = {
                 "with a DATA AUDIT of the waveform table (one shared 5,15,... grid); order independence of the radio "
                 "stage and the SNR; the field model against its formula (two Gaussians in the off-axis angle, each with "
                 "its own width squared, hence finite for every fitted width); the radio stage and the SNR function modify none "
-                "of their arguments (a second evaluation on the same batch sees the same fields). It does NOT decide finiteness in general or values.",
+                "of their arguments (a second evaluation on the same batch sees the same fields); values stored by position (np.place) are the selection their mask makes. It does NOT decide finiteness in general or values.",
         "technique": "polynomial degrees / ratios of final values on the value-flow graph (store-to-load forwarding, "
                      "path assumptions), truth-table predicates, length-class (equivariance) typing; data audit",
     },
